@@ -35,6 +35,26 @@ func Main(args []string) int {
 		return 0
 	case "check":
 		return CheckMain(args[1:])
+	case "chacheck":
+		p, err := Load(LoadConfig{Repo: "/repo", UseCHA: true})
+		if err != nil {
+			fmt.Fprintln(os.Stderr, err)
+			return 1
+		}
+		a := ResolveAnchors(p)
+		fmt.Println("unresolved:", a.Unresolved, "reach:", len(a.Reach))
+		for _, id := range PropertyIDs() {
+			obs := runProperty(registry[id], p, a)
+			bad := 0
+			for _, o := range obs {
+				if o.Status != Discharged && !isKnownKey(o.Key) {
+					bad++
+					fmt.Println("  ", o.Status, o.Key, "::", firstLines(o.Detail, 2))
+				}
+			}
+			fmt.Println(id, "obligations", len(obs), "bad", bad)
+		}
+		return 0
 	case "mutants":
 		return MutantsMain(args[1:])
 	case "explain":
